@@ -819,6 +819,12 @@ def rule_same_path(cm, em, rep, rid):
         if f is None:
             raise AnalysisError('anchor vanished: compiler.%s' % name)
         calls = [c for c, cs in em.cg.calls.get(f, ()) if pipe in cs]
+        if not calls and name == 'main':
+            # through a helper of the compiler module
+            for c, cs in em.cg.calls.get(f, ()):
+                for h in cs:
+                    if h.module.name == 'compiler' and any(pipe in cs2 for _, cs2 in em.cg.calls.get(h, ())):
+                        calls.append(c)
         other = [c for c, cs in em.cg.calls.get(f, ()) for x in cs if x.cls is not None and x.cls.name in ('YPPythonCodeGenerator', 'YPPrologCompiler', 'YPPrologVisitor')]
         key = 'compiler.%s' % name
         n += 1
@@ -834,18 +840,27 @@ def rule_same_path(cm, em, rep, rid):
         rep.violation(rid, key, 'main() does not loop over its sources in the order given', main.loc())
         return
     loop = loops[0]
+    # the function that holds the pipeline call: main itself, or a helper called once per source inside the loop
+    holder, scope = main, loop
     call = [c for c in ast.walk(loop) if isinstance(c, ast.Call) and pipe in em.cg.resolve_callable(main, c.func)]
-    writes = [c for c in ast.walk(loop) if isinstance(c, ast.Call) and isinstance(c.func, ast.Attribute) and c.func.attr == 'write']
+    if not call:
+        for c in ast.walk(loop):
+            if isinstance(c, ast.Call):
+                for h in em.cg.resolve_callable(main, c.func):
+                    if h.module.name == 'compiler' and any(pipe in cs for _, cs in em.cg.calls.get(h, ())):
+                        holder, scope = h, h.node
+    call = [c for c in ast.walk(scope) if isinstance(c, ast.Call) and pipe in em.cg.resolve_callable(holder, c.func)]
+    writes = [c for c in ast.walk(scope) if isinstance(c, ast.Call) and isinstance(c.func, ast.Attribute) and c.func.attr == 'write']
     if len(call) == 1 and len(writes) == 1:
         p = getattr(call[0], '_parent', None)
         var = p.targets[0].id if isinstance(p, ast.Assign) and isinstance(p.targets[0], ast.Name) else None
         arg = writes[0].args[0] if writes[0].args else None
         if (var and is_name(arg, var)) or arg is call[0]:
-            reassigned = [s for s in ast.walk(loop) if isinstance(s, ast.Assign) and any(is_name(t, var) for t in s.targets) and s.value is not call[0]]
+            reassigned = [s for s in ast.walk(scope) if isinstance(s, ast.Assign) and any(is_name(t, var) for t in s.targets) and s.value is not call[0]]
             if not reassigned:
-                rep.ok(rid, key, 'writes the unmodified result of the pipeline call, once per source', main.loc(writes[0]))
+                rep.ok(rid, key, 'writes the unmodified result of the pipeline call, once per source (%s)' % holder.name, holder.loc(writes[0]))
                 return
-    rep.violation(rid, key, 'what main() writes is not exactly the result of the pipeline call for each source', main.loc(loop))
+    rep.violation(rid, key, 'what the command line writes is not exactly the result of the pipeline call for each source', holder.loc())
 
 
 def rule_comment_safe_writes(cm, rep, rid):
@@ -855,9 +870,21 @@ def rule_comment_safe_writes(cm, rep, rid):
     L = Lex(cm)
     target = lx.dfa(COMMENT_LINES)
     n = 0
+    pipe = rf_pipeline(cm)
+
+    def writes_compiled_code(f, call):
+        a = call.args[0] if call.args else None
+        if isinstance(a, ast.Call) and is_name(a.func, pipe.name):
+            return True
+        if isinstance(a, ast.Name):
+            for s_ in own_nodes(f.node):
+                if isinstance(s_, ast.Assign) and any(is_name(t, a.id) for t in s_.targets) and isinstance(s_.value, ast.Call) \
+                        and is_name(s_.value.func, pipe.name):
+                    return True
+        return False
     for f, call in cm.flow.stream_writes:
-        if f.name == 'main':
-            continue
+        if writes_compiled_code(f, call):
+            continue        # the compiled code itself (C19.B1)
         n += 1
         key = '%s:%s' % (f.qname, norm(call)[:60])
         vals = cm.flow.ev(f, call.args[0], {}) if call.args else {}
@@ -1340,3 +1367,45 @@ def rule_per_clause_stateless(cm, rep, rid):
                           'compiled differently from earlier ones' % fld, g.loc(x))
     if not bad:
         rep.ok(rid, f.qname, 'no accumulator parameter; %d container field(s) examined' % len(mutated), f.loc())
+
+
+
+def rule_unquote_delimiters(cm, rep, rid):
+    rep.rule(rid, 'the function that turns the text of a STRING token into an atom name removes exactly one character at each '
+                  'end (slice [1:-1] or an index loop from 1 to len-1); strip()-style removal of the quote character, which also '
+                  'eats quotes that belong to the name, is reported')
+    vis = cm.repo.cls('yp_prolog_visitor', 'YPPrologVisitor')
+    va = vis.methods.get('visitAtom')
+    if va is None:
+        raise AnalysisError('anchor vanished: visitAtom')
+    helpers = []
+    for x in own_nodes_ordered(va.node):
+        if isinstance(x, ast.Call) and is_self_attr(x.func) and any('STRING' in norm(a) for a in x.args):
+            m = cm.repo.lookup_method(vis, x.func.attr)
+            if m is not None:
+                helpers.append(m)
+    rep.minimum('unquoting helpers applied to STRING tokens', len(helpers), 1)
+    for m in helpers:
+        p = m.params[1]
+        key = '%s:%s' % (m.qname, p)
+        bad = None
+        good = None
+        for x in own_nodes_ordered(m.node):
+            if isinstance(x, ast.Call) and isinstance(x.func, ast.Attribute) and x.func.attr in ('strip', 'lstrip', 'rstrip') and \
+                    any(is_name(y, p) for y in ast.walk(x.func.value)):
+                bad = x
+            if isinstance(x, ast.Subscript) and is_name(x.value, p) and isinstance(x.slice, ast.Slice):
+                lo, hi = x.slice.lower, x.slice.upper
+                if isinstance(lo, ast.Constant) and lo.value == 1 and isinstance(hi, ast.UnaryOp) and isinstance(hi.operand, ast.Constant) and hi.operand.value == 1:
+                    good = x
+                else:
+                    bad = bad or x
+            if isinstance(x, ast.Compare) and 'len(%s)' % p in norm(x) and ('- 1' in norm(x) or '-1' in norm(x)):
+                good = good or x
+        if bad is not None:
+            rep.violation(rid, key, 'the quotes of a quoted atom are removed with %s, which removes more than the two delimiters when the '
+                          'name itself begins or ends with a quote (the source literal then denotes a different atom)' % norm(bad)[:50], m.loc(bad))
+        elif good is not None:
+            rep.ok(rid, key, 'exactly the first and the last character are dropped', m.loc(good))
+        else:
+            rep.note(rid, 'cannot see how %s removes the delimiters of a quoted atom' % m.qname, m.loc())
